@@ -1,14 +1,18 @@
 // gen_c20: translator for the validation half of property C20.  Reads the CURRENT tree under $VERIF_REPO
 // (default /repo) with go/ast and writes coq/gen/Gen_MsgFields.v:
 //
-//	gen_types          every struct type in x/*/types and types/ that (a) is a message (name starts with Msg),
-//	                   (b) has a ValidateBasic()/Validate() method, or (c) is a precompile argument struct (*Args):
-//	                   its field list (name, Go type, nil-ability kind) and the name of its validator ("" if none)
-//	gen_panic_sites    every panic( / Must*( call inside a method or function of those packages whose name is
-//	                   ValidateBasic, Validate, validateBasic, GetSigners, GetSignBytes, Get*/Must*/Is* (accessor
-//	                   style, value or pointer receiver) — the places where attacker-controlled text meets a panic
-//	gen_precompile_methods   (contract, ABI method name) for every abi method a precompile method struct binds
-//	gen_ante_decorators      the decorator constructor calls of ante/handler_options.go:newCosmosAnteHandler, in order
+//		gen_types          every struct type in x/*/types and types/ that (a) is a message (name starts with Msg),
+//		                   (b) has a ValidateBasic()/Validate() method, or (c) is a precompile argument struct (*Args):
+//		                   its field list (name, Go type, nil-ability kind) and the name of its validator ("" if none)
+//		gen_panic_sites    every panic( / Must*( call inside a method or function of those packages whose name is
+//		                   ValidateBasic, Validate, validateBasic, GetSigners, GetSignBytes, Get*/Must*/Is* (accessor
+//		                   style, value or pointer receiver) — the places where attacker-controlled text meets a panic
+//		gen_precompile_methods   (contract, ABI method name) for every abi method a precompile method struct binds
+//		gen_ante_decorators      the decorator constructor calls of ante/handler_options.go:newCosmosAnteHandler, in order
+//
+//	  gen_eth_ante_steps       the ethante.* calls and trailing decorators of newEthAnteHandler, in order
+//	  gen_index_guards         for the signature helpers (eth_signer.go, tron signer.go): every constant index sig[c] with the
+//	                           minimal length the function's `len(sig) < c'` guard guarantees (obligation: c < c')
 //
 // The finite obligations over these lists are in coq/proofs/P_ValidateGen.v. Fails loudly when a shape is gone.
 package main
@@ -23,6 +27,7 @@ import (
 	"os"
 	"path/filepath"
 	"sort"
+	"strconv"
 	"strings"
 )
 
@@ -336,6 +341,92 @@ func main() {
 		}
 	}
 
+	// index/guard facts of the signature helpers: for every `x[c]` with a constant c in a function that guards x by
+	// `if len(x) < c' { return … }` (or <=, !=): (file, func, x, largest constant index read, minimal length the guard guarantees)
+	type ig struct {
+		File, Func, Var string
+		MaxIdx, MinLen  int
+	}
+	var igs []ig
+	knownConst := map[string]int{"crypto.RecoveryIDOffset": 64, "crypto.SignatureLength": 65, "crypto.DigestLength": 32}
+	constOf := func(e ast.Expr) (int, bool) {
+		switch v := e.(type) {
+		case *ast.BasicLit:
+			if v.Kind == token.INT {
+				n, err := strconv.Atoi(v.Value)
+				return n, err == nil
+			}
+		case *ast.SelectorExpr, *ast.Ident:
+			n, ok := knownConst[exprStr(e)]
+			return n, ok
+		}
+		return 0, false
+	}
+	for _, rel := range []string{"x/crosschain/types/eth_signer.go", "x/tron/types/signer.go"} {
+		f, err := parser.ParseFile(fset, filepath.Join(repo, rel), nil, 0)
+		if err != nil {
+			die("parse %s: %v", rel, err)
+		}
+		for _, d := range f.Decls {
+			fd, ok := d.(*ast.FuncDecl)
+			if !ok || fd.Body == nil {
+				continue
+			}
+			maxIdx := map[string]int{}
+			minLen := map[string]int{}
+			ast.Inspect(fd.Body, func(n ast.Node) bool {
+				switch x := n.(type) {
+				case *ast.IndexExpr:
+					if id, ok := x.X.(*ast.Ident); ok {
+						if c, ok := constOf(x.Index); ok {
+							if cur, seen := maxIdx[id.Name]; !seen || c > cur {
+								maxIdx[id.Name] = c
+							}
+						}
+					}
+				case *ast.IfStmt:
+					be, ok := x.Cond.(*ast.BinaryExpr)
+					if !ok || len(x.Body.List) == 0 {
+						return true
+					}
+					if _, isRet := x.Body.List[len(x.Body.List)-1].(*ast.ReturnStmt); !isRet {
+						return true
+					}
+					call, ok := be.X.(*ast.CallExpr)
+					if !ok || exprStr(call.Fun) != "len" || len(call.Args) != 1 {
+						return true
+					}
+					id, ok := call.Args[0].(*ast.Ident)
+					if !ok {
+						return true
+					}
+					c, ok := constOf(be.Y)
+					if !ok {
+						return true
+					}
+					g := 0
+					switch be.Op {
+					case token.LSS, token.NEQ:
+						g = c
+					case token.LEQ:
+						g = c + 1
+					}
+					if g > minLen[id.Name] {
+						minLen[id.Name] = g
+					}
+				}
+				return true
+			})
+			for v, mi := range maxIdx {
+				igs = append(igs, ig{rel, fd.Name.Name, v, mi, minLen[v]})
+			}
+		}
+	}
+	sort.Slice(igs, func(i, j int) bool { return igs[i].File+igs[i].Func+igs[i].Var < igs[j].File+igs[j].Func+igs[j].Var })
+	if len(igs) == 0 {
+		die("no constant index into the signature found in the signature helpers (x/crosschain/types/eth_signer.go, x/tron/types/signer.go): their shape changed")
+	}
+
 	sort.Slice(sites, func(i, j int) bool {
 		a, b := sites[i], sites[j]
 		return a.File+a.Func+a.What < b.File+b.Func+b.What
@@ -395,6 +486,15 @@ func main() {
 			sb.WriteString("; ")
 		}
 		sb.WriteString(coqStr(d))
+	}
+	sb.WriteString("].\n")
+	sb.WriteString("\n(* signature helpers: (file, function, indexed variable, largest constant index read, minimal length its guard guarantees) *)\n")
+	sb.WriteString("Definition gen_index_guards : list (string * string * string * nat * nat) :=\n [")
+	for i, g := range igs {
+		if i > 0 {
+			sb.WriteString(";\n  ")
+		}
+		sb.WriteString(fmt.Sprintf("(%s, %s, %s, %d, %d)", coqStr(g.File), coqStr(g.Func), coqStr(g.Var), g.MaxIdx, g.MinLen))
 	}
 	sb.WriteString("].\n")
 	if err := os.WriteFile(filepath.Join(out, "Gen_MsgFields.v"), []byte(sb.String()), 0o644); err != nil {
